@@ -14,6 +14,12 @@ EXTENDS Integers, Sequences
 LOCAL INSTANCE SequencesExt
 LOCAL INSTANCE Bitwise
 
+\* the Java-backed folds of SequencesExt, re-exported
+FoldL(op(_, _), base, seq) == FoldLeft(op, base, seq)      \* op(acc, x), first to last
+FoldR(op(_, _), seq, base) == FoldRight(op, seq, base)     \* op(x, acc), last to first
+LastIdx(seq, Test(_))  == SelectLastInSeq(seq, Test)       \* 0 if none
+FirstIdx(seq, Test(_)) == SelectInSeq(seq, Test)           \* 0 if none
+
 BMax(a, b) == IF a >= b THEN a ELSE b
 BMin(a, b) == IF a <= b THEN a ELSE b
 
